@@ -2,20 +2,29 @@
 import vlib
 from props import subhist_common as S
 
-TRANSLATORS = []
+TRANSLATORS = ["accept_order"]
 MODELS = ["subhist"]
 BINS = {"release": ["subhist"]}
-RULE = ("cases = one script line each over {subscribe, accept, reject, handler return, sink clone/drop, send, is_closed, "
+RULE = ("cases = one script line each over {subscribe, accept, reject, handler return, abandoned subscribe call (pending sink "
+        "kept / dying with the handler), drop of the pending sink, sink clone/drop, send, is_closed, "
         "unsubscribe(own / foreign / stale / unknown id), connection drop, server stop}, 1..2 connections, caps 0..3, the same "
-        "random walk re-run with a connection drop injected (every position in the thorough tier), plus the exhaustive space of "
+        "random walk re-run with a connection drop injected (every position in the thorough tier), the targeted family around "
+        "an abandoned call (abandon; [conn drop | stop | slot probe]; accept / reject / drop / nothing; unsubscribe of that id; "
+        "subscribe again up to the cap and one more), plus the exhaustive space of "
         "short scripts; run on a real jsonrpsee_server::Server with max_subscriptions_per_connection(cap) and a counting "
         "IdProvider (harness/src/bin/subhist.rs) and on the extracted SubBook LTS (modelrun/subhist_driver.ml); results diffed "
-        "line by line; the C06 oracle (tools/props/subhist_common.py:oracles: unsubscribe truth table, cap, slot return, stays "
+        "line by line; the C06 oracle (tools/props/subhist_common.py:oracles: unsubscribe truth table, unsubscribe true only for "
+        "a subscription whose accept reported success on that connection, cap, slot return incl. abandoned calls, stays "
         "active) is evaluated on the implementation output alone.  distinct non-trivial = distinct result lines in which at "
         "least one subscribe call reached the handler")
 TRUSTED = [
     "modelled, not verified: tokio mpsc/oneshot/semaphore semantics and the WS writer (Model/SubBook.v), tied by the differential run only",
     "harness: handler remote control, quiescence detection (barrier round-trips / idle rounds), counting IdProvider, frame canonicalisation (error.data dropped)",
+    "harness: the rpc middleware `Abandon` installed on every server (races the subscribe-call future against a script-controlled signal, polls the inner "
+    "future first, answers an abandoned call with error 44); its transparency was checked by byte-comparing the corpus before/after; `ab,s,k` moves the pending "
+    "sink to a detached task from the Drop of the handler future's state",
+    "translator tools/translators/accept_order.py: textual anchors for the four effectful steps of PendingSubscriptionSink::accept (exactly one match each, both "
+    "sends still behind `?`, exactly one await); Model/SubBook.v interprets the emitted order (accept_run)",
 ]
 ASSUMPTIONS = [
     "partial: real interleavings inside tokio are sampled (one harness-sequenced schedule on a current-thread runtime), not enumerated",
@@ -27,6 +36,12 @@ ASSUMPTIONS = [
     "the model and the theorems describe the repaired drop (fixes/C06.patch: entry removed with the LAST clone); the unrepaired drop is kept as "
     "step_old with the witness C06_stays_active_refuted_old, and the oracle key 'sink-clone-dropped' reports it if it returns",
     "one subscription method (one subscriber table); subscription ids from a counting IdProvider, so ids never collide",
+    "abandoned subscribe call = the future returned by the subscribe callback is dropped unanswered while the connection stays open (modelled on what the harness's "
+    "middleware does; the error answer 44 is the middleware's); the library then drops the handler future at once, so accept() can only run on a pending sink the "
+    "handler had handed to another task (ab,s,k); a call abandoned while the handler is suspended INSIDE accept().await (full outgoing buffer) is not modelled "
+    "(the queue is unbounded here); the model keeps one seam inside accept (after the last fallible step), the steps before it are one atomic step",
+    "observed, outside the property text: accept() on an abandoned call returns Err AFTER the success response was handed to the connection (the `TODO: #1052` "
+    "double send): the client reads error 44 and then {result: <sid>} for the same call id although no subscription exists; model and implementation agree on it",
 ]
 
 
